@@ -970,7 +970,7 @@ RULES = [
     ("C05-R5", r5_lockstep, 28),
     ("C05-R6", r6_value_flow, 250),
     ("C05-R7", r7_selection, 30),
-    ("C05-R8", r8_buffers, 40),
+    ("C05-R8", r8_buffers, 42),
     ("C05-R9", r9_wrapper_transparency, 16),
 ]
 LEVEL = "translation_validation"
@@ -990,7 +990,9 @@ EXPLANATION = ("Static translation validation between the two rainflow implement
                "verifier/e8_karr.py, invariants inferred per program) proves every buffer index in range, output rows written consecutively and below "
                "capacity, the returned prefix == the rows written (in the program's own exit expression) and 2*sum(counts) == L-1; calloc/free pairing; "
                "element types: every buffer the Python kernels compute ranges in is float64 whatever the caller's dtype (or the entry point converted "
-               "the sequence to float64), the C entry point converts to NPY_DOUBLE what the kernels read as double*.  A difference between two "
+               "the sequence to float64), the C entry point converts to NPY_DOUBLE what the kernels read as double* and - because they index the data pointer as a packed "
+               "buffer - establishes that the vector is contiguous (the requirement word of PyArray_FromAny, read by value after clang expanded the numpy "
+               "macros, has NPY_ARRAY_C_CONTIGUOUS / F_CONTIGUOUS / ENSURECOPY; or a call that returns a contiguous array; or a flag test on the path).  A difference between two "
                "systems (C05-R1..R3), or a bound / balance the invariants do not yield (C05-R4), is reported as a VIOLATION only with a witness: an "
                "input of a finite world (lengths 2..6, ties, permutations, NaN, tiny scale, near-ties) on which the lowered programs return "
                "different tables (or break the bound); without one the obligation is undecided (exit 2).")
@@ -1007,7 +1009,7 @@ MANIFEST = {
             "wrapper cyclecount.rainflow hands the caller's sequence itself to the bound implementation and returns its tables unchanged; (C05-R8) the "
             "arithmetic of both implementations is in double precision for every input dtype: the Python stack / table are float64 buffers (never the "
             "caller's dtype unless py_rain.rainflow converted the sequence to float64 first), no difference or sum is formed of two values that still "
-            "have the caller's element type, the C entry point converts to NPY_DOUBLE and the kernels read double*. Not decided: numba's compilation, bit-level FP of the two compilers.",
+            "have the caller's element type, the C entry point converts to NPY_DOUBLE and requires (or itself establishes) a contiguous vector, the kernels read it as a packed double*. Not decided: numba's compilation, bit-level FP of the two compilers.",
     "note": "Trusted: clang-14 as parser of c_rain.c with the build's include paths; CPython ast; IEEE conformance of both compilers on identical expression trees; allocation calls succeed (the failure exits are checked only for releasing the buffers).",
     "technique": "static translation validation: clang JSON AST and Python AST lowered to a common IR, symbolic execution into transition systems between loop heads, semantic comparison up to a derived change of variables + comparison with an ASTM E1049 reference automaton; abstract interpretation (Karr affine equalities + template inequalities) for counter balance and buffer bounds",
 }
